@@ -1,6 +1,7 @@
 import SqlProofs.FilterSpec
 import SqlProofs.FormatSpec
 import SqlProofs.IndentSpec
+import SqlProofs.WsRespell.Gap
 /-!
 # C06 — layout formatting never changes the significant tokens of the SQL
 
@@ -30,5 +31,17 @@ theorem aligned_preserves_significant : type_of% @aligned_preserves_sig := @alig
 /-- for a filter plan made of layout filters only (spaces, strip_whitespace, reindent, aligned) the tree handed to the serializer has the significant leaves of the grouped tree, statement by statement -/
 theorem layout_stack_preserves_significant : type_of% @runStmtObjs_layout_sig := @runStmtObjs_layout_sig
 theorem layout_plan_is_layout_stack : type_of% @layout_plan_objs := @layout_plan_objs
+
+/-! ## lexical bridge (partial)
+
+At tree level the four layout filters keep the significant leaves (above).  That the serialized output RE-LEXES to the same significant tokens
+needs lexical stability under adding/removing whitespace between two tokens.  Proved: for ONE boundary certified by the decidable `gapFree`
+(driver command `gapcert`; both variants — no whitespace / one blank at that boundary — lex to the same significant tokens and are
+`wsRespellableAny`), every text that spells either variant with arbitrary non-empty whitespace for all runs lexes to the same significant tokens.
+NOT proved: several changed boundaries at once (`Sql.GapConjecture : Prop` in SqlProofs/WsRespell/Gap.lean is a definition, not a theorem;
+validated on the real lexer: 28 476 changed certified boundaries, 0 violations; the three open C06 findings all sit on UNcertified boundaries).
+End to end the bridge is checked by the oracle (re-lexing the real output) and S-FMT. -/
+theorem one_boundary_whitespace_change_relexes_partial : type_of% @Sql.gap_boundary_respell := @Sql.gap_boundary_respell
+theorem certified_boundary_variants_lex : type_of% @Sql.gap_variants_lex := @Sql.gap_variants_lex
 
 end Sql.C06
